@@ -131,6 +131,11 @@ def check_c14(tier, seed):
         sample_edges(run, edges)
         for t in ("osfs", "memfs", "orefafs"):
             run.replay(edges, t)
+        # enumeration by a non-administrator over directories that cannot be listed or searched (the configured trees
+        # of profile perm3): WalkDir tells the callback, Glob passes them by, the helpers report the error
+        pedges = run.generate("perm4", 1 if q else 2, "perm4")
+        for t in ("osfs", "memfs"):
+            run.replay(pedges, t)
         # the same enumeration calls through the wrapper file systems
         for kind, targets in (("rofs", ("memfs",)), ("failfs", ("memfs",)), ("basepath", ("memfs",))):
             for target in targets:
@@ -145,7 +150,9 @@ def check_c14(tier, seed):
                 run.replay(wedges, target, names="a,b,B,f,s" if kind == "basepath" else "a,b")
         run.cov["universe"] = "trees built by <=%d elementary calls (directories, files, symbolic links, Chdir) x 150 glob patterns over " \
                               "{*,?,a,b,a*,*b,??,[ab],[^a],\\\\a,*a*} absolute and relative x WalkDir with SkipDir/SkipAll/error at every " \
-                              "visit index 1..6 x Exists/DirExists/IsDir/IsEmpty/ReadDir; repeated through RoFS, FailFS and BasePathFS" % (3 if q else 4)
+                              "visit index 1..6 x Exists/DirExists/IsDir/IsEmpty/ReadDir; repeated through RoFS, FailFS and BasePathFS; " \
+                              "the enumeration calls by a non-administrator on the configured permission trees of profile perm4 (unreadable / " \
+                              "unsearchable directories, callbacks answering SkipDir to the error they are handed)" % (3 if q else 4)
         run.cov["exhaustive"] = True
         return nscheck.finish(run, "C14")
     finally:
